@@ -727,6 +727,7 @@ fn c16_pool(tier: Tier, family: usize) -> C16Pool {
     let mut dfas: Vec<Arc<Dfa>> = vec![];
     let mut lang = vec![];
     for p in &progs {
+        beat();
         let d = cache.dfa(p);
         let n = dfas.len();
         let id = *ids.entry((*d).clone()).or_insert_with(|| {
@@ -808,7 +809,7 @@ impl Engine for C16Engine {
         let b = batch % C16_NB;
         let pool = c16_pool(ctx.tier, family);
         let mut re = ReManager::new();
-        let terms: Vec<RegLan> = pool.progs.iter().map(|p| build_mgr(&pool.u, &mut re, p)).collect();
+        let terms: Vec<RegLan> = pool.progs.iter().map(|p| { beat(); build_mgr(&pool.u, &mut re, p) }).collect();
         let mut memo: HashMap<(usize, usize), bool> = HashMap::new();
         let n = terms.len();
         for i in 0..n {
